@@ -71,3 +71,15 @@ claim("C20", "proof",
       "Rate constants of the wrong order are in C19, unit text in C18, coarse-graining maps in C16, trajectory positions in C17. "
       "Structure enumerated (small networks). A1.",
       "deductive: symbolic execution of real source + SMT; finite exhaustive enumeration for key/mode classes", "DESIGN.md 3/C20")
+claim("C17", "proof",
+      "RDTrajectory accessors are executed symbolically on a trajectory with symbolic number of samples, symbolic grid size, "
+      "symbolic data/times and independent unit systems: point accessor, per-sample state, per-cell trajectory and direct "
+      "indexing at sample*S*n + species*n + cell return the same element with the data's units (numpy reshape modelled "
+      "row-major), whole-state accessor = contiguous block, merged trajectory = sum over cells (sum-congruence obligation), "
+      "species by label/index/object, cells by index/coordinates. The three lookup policies are verified through a search-loop "
+      "rule (return inside a generic iteration, Skolemised least index + instantiable universal facts): last sample not after, "
+      "first sample not before, closest with ties to the earlier, None iff no such sample, for queries as numbers or "
+      "quantities in any time unit.",
+      "S = 3 species (structure). Sortedness of times is the property's quantifier (instances at all read indices). L-IVT "
+      "(discrete intermediate value, needs induction) is an assumed lemma instance. A1.",
+      "deductive: symbolic execution of real source (search-loop rule, fold ghosts) + SMT", "DESIGN.md 3/C17")
